@@ -208,7 +208,9 @@ def run(chk):
             elif k <= 12 and rng.random() < 0.2:
                 # names that contain other names (English / Old_English; L1 / L10)
                 pool = rng.choice([['English', 'Old_English', 'Dutch', 'Middle_Dutch', 'German', 'Low_German', 'Frisian', 'North_Frisian', 'Norse',
-                                    'Old_Norse', 'Saxon', 'Old_Saxon'], ['L%d' % (10 ** (i % 3) + i // 3) for i in range(12)]])
+                                    'Old_Norse', 'Saxon', 'Old_Saxon'], ['L%d' % (10 ** (i % 3) + i // 3) for i in range(12)],
+                                   # names that differ in case only (Bai / BAI): two taxa, two names
+                                   ['Bai', 'BAI', 'Naxi', 'naxi', 'a', 'A', 'Yi', 'YI', 'yi', 'Lisu', 'LISU', 'Hani']])
                 order = list(range(k))
                 rng.shuffle(order)
                 names = {i: pool[j] for i, j in zip(order, range(k))}
